@@ -13,7 +13,7 @@ open Golem.Go Golem.Model Golem.Model.DSLT
 
 variable {σ α β ε : Type}
 
-attribute [local simp] runBody bind BodyT.bind pure BodyT.pure act selSend plainSend sleep recvSel afterSel ret next getS setS
+attribute [local simp] runBody callsOf bind BodyT.bind pure BodyT.pure act applyF selSend plainSend sleep recvSel afterSel ret next getS setS
   catchAct catchAfter
 
 /-- `f.catch` by error mode, as regenerated (in the action monad of the sources) -/
@@ -35,6 +35,11 @@ theorem emit_iter_gen (m : ErrMode) (freq : Nat) (f : Nat → α × Option ε) (
     runBody (Golem.Gen.PipeSrc.Emit.body0 f (catchOf m) freq i) s = (s, (emitIter m freq f i).1, (emitIter m freq f i).2) := by
   cases h : (f i).2 <;> cases m <;> simp [Golem.Gen.PipeSrc.Emit.body0, emitIter, h]
 
+/-- Emit calls its function exactly once per iteration (so at most once per tick: the iteration starts with the sleep) -/
+theorem emit_calls_gen (m : ErrMode) (freq : Nat) (f : Nat → α × Option ε) (i : Nat) (s : Unit) :
+    callsOf (Golem.Gen.PipeSrc.Emit.body0 f (catchOf m) freq i) s = 1 := by
+  cases h : (f i).2 <;> cases m <;> simp [Golem.Gen.PipeSrc.Emit.body0, h]
+
 theorem emit_loop_gen : Golem.Gen.PipeSrc.Emit.loopKind0 = "index" := rfl
 theorem emit_cfg_gen : Golem.Gen.PipeSrc.Emit.cfg = emitCfg := rfl
 
@@ -46,6 +51,11 @@ theorem unfold_iter_gen (m : ErrMode) (f : α → α × Option ε) (seed : α) :
     ((unfoldIter m f seed).2.2 ≠ .stop →
       (runBody (Golem.Gen.PipeSrc.Unfold.body0 f (catchOf m)) seed).1 = (unfoldIter m f seed).1) := by
   cases h : (f seed).2 <;> cases m <;> simp [Golem.Gen.PipeSrc.Unfold.body0, unfoldIter, h]
+
+/-- Unfold calls its function exactly once per delivered element -/
+theorem unfold_calls_gen (m : ErrMode) (f : α → α × Option ε) (seed : α) :
+    callsOf (Golem.Gen.PipeSrc.Unfold.body0 f (catchOf m)) seed = 1 := by
+  cases h : (f seed).2 <;> cases m <;> simp [Golem.Gen.PipeSrc.Unfold.body0, h]
 
 theorem unfold_loop_gen : Golem.Gen.PipeSrc.Unfold.loopKind0 = "state" := rfl
 theorem unfold_cfg_gen : Golem.Gen.PipeSrc.Unfold.cfg = unfoldCfg := rfl
@@ -60,7 +70,7 @@ theorem forN_acts (n : Nat) (a : Act β) (b : BS σ β) :
 theorem pacer_iter_gen (ops interval : Nat) (s : Unit) :
     runBody (Golem.Gen.PipeSrc.Throttling.body0 (α := α) ops interval) s
       = (s, (pacerIter (α := α) ops interval).1, (pacerIter (α := α) ops interval).2) := by
-  have h := forN_acts (σ := Unit) ops (Act.send 1 (Sum.inr () : α ⊕ Unit) .sel) ⟨s, []⟩
+  have h := forN_acts (σ := Unit) ops (Act.send 1 (Sum.inr () : α ⊕ Unit) .sel) { s := s, acts := [] }
   simp only [Golem.Gen.PipeSrc.Throttling.body0, runBody, pacerIter, bind, BodyT.bind, selSend] at *
   simp [h, afterSel, act]
 
